@@ -31,7 +31,7 @@ def _load(sv, study_state, t1, m1, t2, md):
                        final=1.5 if t1 == SUCCEEDED else None, reason='why' if t1 == INFEASIBLE else '')
     if md:
       t.metadata.add(key='k', ns='', value='old')
-      t.metadata.add(key='k', ns=':algo', value='old-algo')
+      t.metadata.add(key='k', ns=':algo').proto.Pack(study_pb2.Trial(id='55', state=2))
     sv.datastore.create_trial(t)
   if t2 == 1:
     sv.datastore.create_trial(svc.make_trial(2, ACTIVE, client='v', n_meas=1))
@@ -44,11 +44,17 @@ def _load(sv, study_state, t1, m1, t2, md):
     sv.datastore.update_study(st)
 
 
+S2 = 'owners/q/studies/s'        # another owner's study with the SAME study id and the same trial ids
+
+
 def _pair(study_state, t1, m1, t2, md=False):
   ram = svc.new_servicer()
   sql = svc.new_servicer(database_url='sqlite:///:memory:')
   for sv in (ram, sql):
     _load(sv, study_state, t1, m1, t2, md)
+    svc.add_study(sv, state=1, name=S2)
+    sv.datastore.create_trial(svc.make_trial(1, SUCCEEDED, client='z', n_meas=1, final=4.5, study=S2))
+    sv.datastore.create_trial(svc.make_trial(2, ACTIVE, client='z', study=S2))
   return ram, sql
 
 
@@ -135,6 +141,9 @@ def _step(op, study_state, t1, m1, t2, target, a, b, args):
     r2, e2 = svc.call(getattr(sql, method), req)
     c1, c2 = svc.classify(e1), svc.classify(e2)
     ok = c1 == c2 and _obs(r1) == _obs(r2) and svc.abstract(ram) == svc.abstract(sql)
+    other = svc.abstract(ram, S2)
+    ok = ok and other == svc.abstract(sql, S2) and len(other['trials']) == 2 and other['trials'][1]['final'] == [('m', 4.5)] \
+        and other['trials'][2]['state'] == ACTIVE and other['md'] == []      # the other owner's study is never touched
     ok = ok and svc.lifecycle_ok(before, svc.abstract(sql))
     tag = '%s:%s' % (method, c1)
   reach(tag)
@@ -289,7 +298,7 @@ def _update_metadata(study_state, t1, t2, us, tgts, as_proto, args):
           d.trial_id = str(tg)
         d.metadatum.key, d.metadatum.ns = key, ns
         if as_proto and i == 0:
-          d.metadatum.proto.Pack(study_pb2.Trial(id='77'))
+          d.metadatum.proto.Pack(study_pb2.Trial())        # an all-defaults message: its serialization is empty
         else:
           d.metadatum.value = 'v%d' % i
       resp, exc = svc.call(sv.UpdateMetadata, req)
@@ -310,7 +319,7 @@ def _update_metadata(study_state, t1, t2, us, tgts, as_proto, args):
         for tid, t in before['trials'].items():
           want[tid] = {(ns_, k_): v_ for ns_, k_, v_ in t['md']}
         for i, (u, tg) in enumerate(zip(us, tgts)):
-          want[tg][_MD_KEYS[u]] = '' if (as_proto and i == 0) else 'v%d' % i
+          want[tg][_MD_KEYS[u]] = 'proto:type.googleapis.com/vizier.Trial:' if (as_proto and i == 0) else 'v%d' % i
         got = {0: {(ns_, k_): v_ for ns_, k_, v_ in a1['md']}}
         for tid, t in a1['trials'].items():
           got[tid] = {(ns_, k_): v_ for ns_, k_, v_ in t['md']}
